@@ -10,12 +10,53 @@ import (
 
 func init() { profiles["genesis"] = genGenesis }
 
+// k indices below n: distinct unless repeats are allowed
+func distinctIdx(g *Gen, n, k int, repeats bool) []int {
+	var out []int
+	if repeats {
+		for i := 0; i < k; i++ {
+			out = append(out, g.r.Intn(n))
+		}
+		return out
+	}
+	perm := make([]int, n)
+	for i := range perm {
+		perm[i] = i
+	}
+	for i := n - 1; i > 0; i-- {
+		j := g.r.Intn(i + 1)
+		perm[i], perm[j] = perm[j], perm[i]
+	}
+	if k > n {
+		k = n
+	}
+	return perm[:k]
+}
+
+func insertAt(l []string, at int, x string) []string {
+	if at > len(l) {
+		at = len(l)
+	}
+	return append(append(append([]string{}, l[:at]...), x), l[at:]...)
+}
+
 func genGenesis(g *Gen, n int) {
 	for sc := 0; sc < n; sc++ {
 		g.line("BEGIN id=%d", sc)
 		g.stats.Scripts++
 		accts := []string{g.acct().String(), g.acct().String(), g.acct().String()}
+		// most scripts are valid except for ONE deliberate fault, so that each validation rule decides alone
+		mode := []string{"chaos", "valid", "one-fault", "one-fault", "one-fault"}[g.r.Intn(5)]
+		fault := ""
+		if mode == "one-fault" {
+			fault = g.pick([]string{"role", "flag", "threshold", "dup-attester", "dup-limit", "dup-pair", "dup-nonce", "dup-messenger"})
+		}
+		g.stats.Mut("mode:" + mode + ":" + fault)
+		chaos := mode == "chaos"
 		role := func() string {
+			if !chaos && !(fault == "role" && g.r.Chance(1, 2)) {
+				return accts[g.r.Intn(3)]
+			}
 			switch g.r.Intn(10) {
 			case 0:
 				g.stats.Mut("role-empty")
@@ -34,12 +75,12 @@ func genGenesis(g *Gen, n int) {
 		g.line("G role name=attmgr v=%x", role())
 		g.line("G role name=pauser v=%x", role())
 		g.line("G role name=tokctl v=%x", role())
-		if !g.r.Chance(1, 10) {
+		if !((chaos && g.r.Chance(1, 10)) || (fault == "flag" && g.r.Chance(1, 2))) {
 			g.line("G flag name=bm v=%d", g.r.Intn(2))
 		} else {
 			g.stats.Mut("bm-absent")
 		}
-		if !g.r.Chance(1, 10) {
+		if !((chaos && g.r.Chance(1, 10)) || (fault == "flag" && g.r.Chance(1, 2))) {
 			g.line("G flag name=sr v=%d", g.r.Intn(2))
 		} else {
 			g.stats.Mut("sr-absent")
@@ -54,7 +95,14 @@ func genGenesis(g *Gen, n int) {
 		} else {
 			g.stats.Mut("nextnonce-absent")
 		}
-		switch g.r.Intn(6) {
+		tk := g.r.Intn(6)
+		if !chaos && fault != "threshold" && tk == 1 {
+			tk = 2
+		}
+		if fault == "threshold" {
+			tk = 1
+		}
+		switch tk {
 		case 0:
 			g.stats.Mut("threshold-absent")
 		case 1:
@@ -64,21 +112,36 @@ func genGenesis(g *Gen, n int) {
 			g.line("G num name=threshold v=%d", 1+g.r.Intn(3))
 		}
 		dup := func(name string) bool {
-			if g.r.Chance(1, 5) {
+			if (chaos && g.r.Chance(1, 5)) || fault == "dup-"+name {
 				g.stats.Mut("dup-" + name)
 				return true
 			}
 			return false
 		}
+		// where the duplicate goes: next to its twin, or separated from it by other entries
+		place := func(n int, i int) int {
+			switch g.r.Intn(3) {
+			case 0:
+				return i + 1 // adjacent
+			case 1:
+				return n // at the end
+			}
+			return 0 // at the front
+		}
+		_ = place
 		// attesters
 		atts := []string{"0x04aa", "0x04bb", "04cc", "0X04AA", "0x04aa/", "", "0x04a"}
 		na := g.r.Intn(5)
+		if fault == "dup-attester" {
+			na = 2 + g.r.Intn(3)
+		}
 		var chosenA []string
-		for i := 0; i < na; i++ {
-			chosenA = append(chosenA, atts[g.r.Intn(len(atts))])
+		for _, i := range distinctIdx(g, len(atts), na, chaos) {
+			chosenA = append(chosenA, atts[i])
 		}
 		if na > 0 && dup("attester") {
-			chosenA = append(chosenA, chosenA[g.r.Intn(len(chosenA))])
+			i := g.r.Intn(len(chosenA))
+			chosenA = insertAt(chosenA, place(len(chosenA), i), chosenA[i])
 		}
 		for _, a := range chosenA {
 			g.line("G attester v=%x", a)
@@ -86,12 +149,16 @@ func genGenesis(g *Gen, n int) {
 		// burn limits: denoms that differ only in case are distinct keys at genesis
 		dens := []string{"uusdc", "UUSDC", "uUsdc", "other", "", "uusdc/"}
 		nl := g.r.Intn(4)
+		if fault == "dup-limit" {
+			nl = 2 + g.r.Intn(3)
+		}
 		var chosenL []string
-		for i := 0; i < nl; i++ {
-			chosenL = append(chosenL, dens[g.r.Intn(len(dens))])
+		for _, i := range distinctIdx(g, len(dens), nl, chaos) {
+			chosenL = append(chosenL, dens[i])
 		}
 		if nl > 0 && dup("limit") {
-			chosenL = append(chosenL, chosenL[g.r.Intn(len(chosenL))])
+			i := g.r.Intn(len(chosenL))
+			chosenL = insertAt(chosenL, place(len(chosenL), i), chosenL[i])
 		}
 		for _, d := range chosenL {
 			g.line("G limit denom=%x amt=%s", d, g.pick([]string{"0", "1", "1000000", "-7", "115792089237316195423570985008687907853269984665640564039457584007913129639935"}))
@@ -102,41 +169,55 @@ func genGenesis(g *Gen, n int) {
 			t []byte
 		}
 		np := g.r.Intn(5)
+		if fault == "dup-pair" {
+			np = 2 + g.r.Intn(3)
+		}
 		var chosenP []pr
-		for i := 0; i < np; i++ {
-			tok := pad32([]byte{byte(g.r.Intn(3))})
-			if g.r.Chance(1, 5) {
+		for _, i := range distinctIdx(g, 9, np, chaos) {
+			tok := pad32([]byte{byte(i % 3)})
+			if chaos && g.r.Chance(1, 5) {
 				tok = g.patBytes([]int{0, 20, 31, 33}[g.r.Intn(4)]) // non-32-byte tokens are dead entries
 			}
-			chosenP = append(chosenP, pr{uint32(g.r.Intn(3)), tok})
+			chosenP = append(chosenP, pr{uint32(i / 3), tok})
 		}
 		if np > 0 && dup("pair") {
-			chosenP = append(chosenP, chosenP[g.r.Intn(len(chosenP))])
+			i := g.r.Intn(len(chosenP))
+			chosenP = append(chosenP[:0:0], append(append(append([]pr{}, chosenP[:min(place(len(chosenP), i), len(chosenP))]...), chosenP[i]), chosenP[min(place(len(chosenP), i), len(chosenP)):]...)...)
 		}
 		for _, p := range chosenP {
 			g.line("G pair domain=%d token=%x local=%x", p.d, p.t, g.pick([]string{"uusdc", "uUSDC", "x"}))
 		}
 		// used nonces
 		nn := g.r.Intn(5)
+		if fault == "dup-nonce" {
+			nn = 2 + g.r.Intn(3)
+		}
 		var chosenN [][2]uint64
 		pool := [][2]uint64{{0, 0}, {0, 1}, {1, 0}, {0xffffffff, 0xffffffffffffffff}, {1, 256}, {256, 1}}
-		for i := 0; i < nn; i++ {
-			chosenN = append(chosenN, pool[g.r.Intn(len(pool))])
+		for _, i := range distinctIdx(g, len(pool), nn, chaos) {
+			chosenN = append(chosenN, pool[i])
 		}
 		if nn > 0 && dup("nonce") {
-			chosenN = append(chosenN, chosenN[g.r.Intn(len(chosenN))])
+			i := g.r.Intn(len(chosenN))
+			at := min(place(len(chosenN), i), len(chosenN))
+			chosenN = append(append(append([][2]uint64{}, chosenN[:at]...), chosenN[i]), chosenN[at:]...)
 		}
 		for _, p := range chosenN {
 			g.line("G nonce domain=%d nonce=%d", p[0], p[1])
 		}
 		// messengers
 		nm := g.r.Intn(4)
+		if fault == "dup-messenger" {
+			nm = 2 + g.r.Intn(2)
+		}
 		var chosenM []uint32
-		for i := 0; i < nm; i++ {
-			chosenM = append(chosenM, []uint32{0, 1, 256, 0xffffffff}[g.r.Intn(4)])
+		for _, i := range distinctIdx(g, 4, nm, chaos) {
+			chosenM = append(chosenM, []uint32{0, 1, 256, 0xffffffff}[i])
 		}
 		if nm > 0 && dup("messenger") {
-			chosenM = append(chosenM, chosenM[g.r.Intn(len(chosenM))])
+			i := g.r.Intn(len(chosenM))
+			at := min(place(len(chosenM), i), len(chosenM))
+			chosenM = append(append(append([]uint32{}, chosenM[:at]...), chosenM[i]), chosenM[at:]...)
 		}
 		for _, d := range chosenM {
 			g.line("G messenger domain=%d addr=%x", d, g.patBytes([]int{32, 32, 32, 0, 20}[g.r.Intn(5)]))
